@@ -53,6 +53,9 @@ def make_ds(rng, xr, fmt):
         th = th[::-1].copy()
     nt = int(rng.integers(1, 7))
     t0 = np.datetime64("2019-06-01T00:00:00") + np.timedelta64(int(rng.integers(0, 10 ** 6)) * (60 if fmt == "octopus" else 1), "s")
+    if rng.random() < 0.3:
+        # a time axis that crosses a month or year boundary inside the file
+        t0 = np.datetime64(str(rng.choice(["2020-12-31T22:00:00", "2021-02-28T23:00:00", "2020-02-29T21:00:00", "2019-06-30T20:00:00"])))
     step = int(rng.choice([600, 3600, 10800])) if fmt == "octopus" else int(rng.choice([1, 47, 600, 3600]))
     times = (t0 + np.arange(nt) * np.timedelta64(step, "s")).astype("datetime64[ns]")
     if grid:
